@@ -48,6 +48,17 @@ def make_prog(rng, base=None, opts=None):
     changed = True
     while changed:
         changed = False
+        bypkg = {}
+        for s in spec.all_sets(tree):
+            bypkg[("s", s["id"])] = max(bypkg.get(("s", s["id"]), 0), s["pkg"])
+            for p in s["providers"]:
+                bypkg[("p", p["id"])] = max(bypkg.get(("p", p["id"]), 0), p["pkg"])
+        for s in spec.all_sets(tree):
+            if s["pkg"] != bypkg[("s", s["id"])]:
+                s["pkg"] = bypkg[("s", s["id"])]; changed = True
+            for p in s["providers"]:
+                if p["pkg"] != bypkg[("p", p["id"])]:
+                    p["pkg"] = bypkg[("p", p["id"])]; changed = True
         for s in spec.all_sets(tree):
             if s["pkg"] == 1:
                 for i in s["imports"]:
@@ -58,12 +69,19 @@ def make_prog(rng, base=None, opts=None):
                         p["pkg"] = 1; changed = True
     prog["multi_var"] = rng.random() < 0.3
     prog["star"] = rng.random() < 0.5
+    # adversarial names (C14): types, injector parameters, library package name, package-level declarations
+    if rng.random() < opts.get("names_p", 0.3):
+        prog["names"] = adversarial_names(rng, prog, kinds)
+        prog["same_pkg_name"] = False
     # front-level variety: a provider with two parameters of one (separately written) type
     allp = [p for s in spec.all_sets(tree) for p in s["providers"]]
     if rng.random() < 0.04:
         fp = [p for p in allp if not p["struct"] and p["args"]]
         if fp:
-            p = rng.choice(fp); p["args"] = p["args"] + [rng.choice(p["args"])]
+            p = rng.choice(fp); extra = rng.choice(p["args"])
+            for q in allp:
+                if q["id"] == p["id"]:
+                    q["args"] = q["args"] + [extra]
             prog["defect"] += "+dup-param"
     # extra tagged fields on struct-provided types
     prog["extra_fields"] = {}
@@ -86,8 +104,47 @@ def make_prog(rng, base=None, opts=None):
             name = "X%d" % p["id"]
             prog["extra_fields"][k] = {"name": name, "t": ft, "tag": tag}
             if prog["star"] and not Render.prevented(tag):
-                p["args"] = p["args"] + [ft]; p["fields"] = p["fields"] + [name]
+                for q in allp:      # every copy of the provider (a set reached along two paths is duplicated in the tree)
+                    if q["struct"] and q["outs"][0] // 2 == k and name not in q["fields"]:
+                        q["args"] = q["args"] + [ft]; q["fields"] = q["fields"] + [name]
     return prog
+
+
+TYPE_POOL = ["Cleanup", "Cleanup2", "Err", "Err2", "Error", "Type", "Func", "Select", "Var", "Range", "Map", "Chan", "Go", "String",
+             "Int", "Nil", "Len", "True", "New", "Append", "Bool", "Foo", "Foo2", "Foo1", "Foo1_2", "Lib", "App", "Arg", "V", "Inject", "Run",
+             "LibFoo", "HTTPServer", "ID", "A0", "A1"]
+PARAM_POOL = ["err", "cleanup", "cleanup2", "err2", "string", "error", "nil", "len", "foo", "foo2", "lib", "app", "v", "arg", "t0", "t1", "a0",
+              "true", "int", "cleanup10", "rt"]
+LIB_POOL = ["err", "cleanup", "foo", "foo2", "lib2", "t0", "arg", "v", "string", "inject", "wire", "rt2"]
+DECL_POOL = ["err", "cleanup", "f:cleanup", "foo", "foo2", "t0", "t1", "v", "arg", "lib", "f:err", "cleanup2", "err2", "libFoo", "f:foo", "libT0"]
+
+
+def adversarial_names(rng, prog, kinds):
+    tree = prog["tree"]
+    ks = sorted({t // 2 for t in synth.all_types(tree, prog["given"], prog["out"])})
+    names = {}
+    pool = list(TYPE_POOL); rng.shuffle(pool)
+    for k in ks:
+        if pool and rng.random() < 0.6:
+            names[k] = pool.pop()
+    n = len(prog["given"])
+    mode = rng.random()
+    if mode < 0.15:
+        params = "unnamed"
+    else:
+        pp = list(PARAM_POOL); rng.shuffle(pp)
+        params = []
+        for i in range(n):
+            r = rng.random()
+            params.append("_" if r < 0.2 else (pp.pop() if r < 0.8 and pp else "a%d" % i))
+    decls = []
+    dp = list(DECL_POOL); rng.shuffle(dp)
+    taken = set()
+    for d in dp[:rng.choice([0, 1, 2, 3])]:
+        nm = d[2:] if d.startswith("f:") else d
+        if nm not in taken:
+            decls.append(d); taken.add(nm)
+    return {"types": names, "params": params, "libname": rng.choice(LIB_POOL) if rng.random() < 0.5 else None, "app_decls": decls}
 
 
 def renderable(prog):
@@ -156,17 +213,25 @@ class Render:
         self.p = prog
         self.mod = modpath
         self.cdir = cdir
-        self.libname = "app" if prog["same_pkg_name"] else "lib"
-        self.libpath = "%s/%s/%s" % (modpath, cdir, "sub/app" if prog["same_pkg_name"] else "lib")
-        self.libdir = "%s/%s" % (cdir, "sub/app" if prog["same_pkg_name"] else "lib")
+        names = prog.get("names") or {}
+        self.libname = names.get("libname") or ("app" if prog["same_pkg_name"] else "lib")
+        sub = "lib" if self.libname == "lib" else "sub/" + self.libname
+        self.libpath = "%s/%s/%s" % (modpath, cdir, sub)
+        self.libdir = "%s/%s" % (cdir, sub)
         self.apppath = "%s/%s/app" % (modpath, cdir)
-        self.liblocal = "lib" if not prog["same_pkg_name"] else "lib"   # local import name used in app files
+        self.liblocal = "xlib"   # local import name used in the app's hand-written files
+        self.tnames = {int(k): v for k, v in (names.get("types") or {}).items()}
+        self.param_names = names.get("params")
+        self.app_decls = names.get("app_decls") or []
         self.collect()
+
+    def tn(self, k):
+        return self.tnames.get(k, "T%d" % k)
 
     # type expression for type id t as seen from package pkg (0 app / 1 lib)
     def ty(self, t, pkg):
         q = "" if pkg == 1 else self.liblocal + "."
-        return ("*" if t % 2 else "") + q + tname(t // 2)
+        return ("*" if t % 2 else "") + q + self.tn(t // 2)
 
     def collect(self):
         p = self.p
@@ -209,6 +274,10 @@ class Render:
             touch(xf["t"])
             if xf["name"] not in {f["name"] for f in td["fields"]}:
                 td["fields"].append({"name": xf["name"], "t": xf["t"], "tag": xf["tag"], "sp": False})
+        for s in spec.all_sets(tree):
+            for pr in s["providers"]:
+                if pr["struct"]:
+                    self.set_lits(pr)
         # interface types that are provided directly (function / value / argument) need an implementation
         for k, td in self.types.items():
             td["defimpl"] = td["kind"] == "iface"
@@ -240,19 +309,19 @@ class Render:
                     continue
                 sub = self.mkval_leaf(ft, '%s + ".%s"' % (idexpr, f["name"]), pkg)
                 inner.append("%s: %s" % (f["name"], sub))
-        lit = "%s%s{%s}" % (q, tname(k), ", ".join(inner))
+        lit = "%s%s{%s}" % (q, self.tn(k), ", ".join(inner))
         return ("&" if t % 2 else "") + lit
 
     def mkval_leaf(self, t, idexpr, pkg):
         q = "" if pkg == 1 else self.liblocal + "."
-        lit = "%s%s{ID: %s}" % (q, tname(t // 2), idexpr)
+        lit = "%s%s{ID: %s}" % (q, self.tn(t // 2), idexpr)
         return ("&" if t % 2 else "") + lit
 
     def zero(self, t, pkg):
         q = "" if pkg == 1 else self.liblocal + "."
         if t % 2 or self.types[t // 2]["kind"] == "iface":
             return "nil"
-        return "%s%s{}" % (q, tname(t // 2))
+        return "%s%s{}" % (q, self.tn(t // 2))
 
     def provider_src(self, pr):
         pkg = pr["pkg"]
@@ -290,29 +359,34 @@ class Render:
         for pr in s["providers"]:
             if pr["struct"]:
                 k = pr["outs"][0] // 2
-                tq = q + tname(k)
+                tq = q + self.tn(k)
                 fields = self.types[k]["fields"]
                 allsp = [f["name"] for f in fields if not self.prevented(f["tag"])]
-                if self.p["star"] and allsp == pr["fields"]:
-                    pr["_lits"] = ['"*"']
-                else:
-                    pr["_lits"] = ['"%s"' % f for f in pr["fields"]]
+                self.set_lits(pr)
                 out.append("wire.Struct(new(%s)%s)" % (tq, "".join(", " + l for l in pr["_lits"])))
             else:
                 out.append((q if pr["pkg"] == 1 else "") + "P%d" % pr["id"])
         for v in s["values"]:
             t = v["out"]
             if self.types[t // 2]["kind"] == "iface":
-                out.append("wire.InterfaceValue(new(%s%s), %sNewImpl%d(\"val%d\"))" % (q, tname(t // 2), q, t // 2, v["id"]))
+                out.append("wire.InterfaceValue(new(%s%s), %sNewImpl%d(\"val%d\"))" % (q, self.tn(t // 2), q, t // 2, v["id"]))
                 v["_call"] = True
             else:
                 out.append("wire.Value(%s)" % self.mkval(t, '"val%d"' % v["id"], pkg, fields_from_id=False))
         for f in s["fields"]:
             par = f["parent"]
-            out.append('wire.FieldsOf(new(%s%s%s), "%s")' % ("*" if par % 2 else "", q, tname(par // 2), f["name"]))
+            out.append('wire.FieldsOf(new(%s%s%s), "%s")' % ("*" if par % 2 else "", q, self.tn(par // 2), f["name"]))
         for b in s["bindings"]:
-            out.append("wire.Bind(new(%s%s), new(%s%s%s))" % (q, tname(b["iface"] // 2), "*" if b["conc"] % 2 else "", q, tname(b["conc"] // 2)))
+            out.append("wire.Bind(new(%s%s), new(%s%s%s))" % (q, self.tn(b["iface"] // 2), "*" if b["conc"] % 2 else "", q, self.tn(b["conc"] // 2)))
         return out
+
+    def set_lits(self, pr):
+        fields = self.types[pr["outs"][0] // 2]["fields"]
+        allsp = [f["name"] for f in fields if not self.prevented(f["tag"])]
+        if self.p["star"] and allsp == pr["fields"]:
+            pr["_lits"] = ['"*"']
+        else:
+            pr["_lits"] = ['"%s"' % f for f in pr["fields"]]
 
     @staticmethod
     def prevented(tag):
@@ -328,7 +402,7 @@ class Render:
         L.append("var _ = rt.Note\n")
         for k in sorted(self.types):
             td = self.types[k]
-            n = tname(k)
+            n = self.tn(k)
             if td["kind"] == "iface":
                 L.append("type %s interface {\n\tDesc() string\n\tIs%d()\n}\n" % (n, k))
                 L.append("type Impl%d struct{ ID string }\n" % k)
@@ -345,7 +419,7 @@ class Render:
             for f in td["fields"]:
                 parts.append('"%s:" + %s' % (f["name"], self.desc("x." + f["name"], f["t"], 1)))
             lit = ' + "," + '.join(parts) if parts else '""'
-            L.append('func (x %s) Desc() string {\n\tif x.ID != "" {\n\t\treturn x.ID\n\t}\n\tif x == (%s{}) {\n\t\treturn "zero"\n\t}\n\treturn "%s{" + %s + "}"\n}\n' % (n, n, n, lit))
+            L.append('func (x %s) Desc() string {\n\tif x.ID != "" {\n\t\treturn x.ID\n\t}\n\tif x == (%s{}) {\n\t\treturn "zero"\n\t}\n\treturn "%s{" + %s + "}"\n}\n' % (n, n, "T%d" % k, lit))
             L.append('func DescP%d(p *%s) string {\n\tif p == nil {\n\t\treturn "nil"\n\t}\n\treturn "&" + p.Desc()\n}\n' % (k, n))
             for i in sorted(td["impl"]):
                 L.append("func (x %s) Is%d() {}\n" % (n, i))
@@ -369,20 +443,31 @@ class Render:
                 out.append("var S%d = wire.NewSet(%s)\n" % (s["id"], ", ".join(self.item_exprs(s, pkg))))
         return "\n".join(out)
 
+    def inj_param_names(self):
+        n = len(self.p["given"])
+        if self.param_names is None:
+            return ["a%d" % i for i in range(n)]
+        if self.param_names == "unnamed":
+            return [""] * n
+        return list(self.param_names)[:n] + ["a%d" % i for i in range(len(self.param_names), n)]
+
     def app_files(self):
         p = self.p
         files = {}
-        imp_lib = '%s"%s"' % ("lib " if self.libname != "lib" else "", self.libpath)
+        imp_lib = 'xlib "%s"' % self.libpath
         # providers and sets of the app package
         L = ["package app\n", "import (\n\t%s\n\t\"%s/rt\"\n\t\"%s\"\n)\n" % (imp_lib, self.mod, WIRE_IMPORT),
-             "var _ = rt.Note\nvar _ = wire.NewSet\nvar _ %s\n" % (self.liblocal + "." + tname(min(self.types)))]
+             "var _ = rt.Note\nvar _ = wire.NewSet\nvar _ %s\n" % (self.liblocal + "." + self.tn(min(self.types)))]
         for pr in sorted(self.provs.values(), key=lambda x: x["id"]):
             if pr["pkg"] == 0 and not pr["struct"]:
                 L.append(self.provider_src(pr))
         L.append(self.sets_src(0))
+        for d in self.app_decls:
+            L.append("var %s = 0\n" % d if not d.startswith("f:") else "func %s() {}\n" % d[2:])
         files["app/prov.go"] = "\n".join(L)
         # injector
-        params = ", ".join("a%d %s" % (i, self.ty(t, 0)) for i, t in enumerate(p["given"]))
+        pn = self.inj_param_names()
+        params = ", ".join(((pn[i] + " ") if pn[i] else "") + self.ty(t, 0) for i, t in enumerate(p["given"]))
         res = [self.ty(p["out"], 0)]
         if p["cleanup"]:
             res.append("func()")
@@ -397,11 +482,11 @@ class Render:
             body = "\t%s\n\treturn %s" % (build, ", ".join(zero))
         W = ["//go:build wireinject\n// +build wireinject\n", "package app\n",
              "import (\n\t%s\n\t\"%s\"\n)\n" % (imp_lib, WIRE_IMPORT),
-             "var _ %s\n" % (self.liblocal + "." + tname(min(self.types))),
+             "var _ %s\n" % (self.liblocal + "." + self.tn(min(self.types))),
              "func Inject(%s) %s {\n%s\n}\n" % (params, rs, body)]
         files["app/wire.go"] = "\n".join(W)
         # driver
-        D = ["package app\n", "import (\n\t%s\n\t\"%s/rt\"\n)\n" % (imp_lib, self.mod), "var _ %s\n" % (self.liblocal + "." + tname(min(self.types)))]
+        D = ["package app\n", "import (\n\t%s\n\t\"%s/rt\"\n)\n" % (imp_lib, self.mod), "var _ %s\n" % (self.liblocal + "." + self.tn(min(self.types)))]
         fails = [""] + ["P%d" % pr["id"] for pr in sorted(self.provs.values(), key=lambda x: x["id"]) if pr["err"] and not pr["struct"]]
         args = ", ".join(self.mkval(t, '"arg%d"' % i, 0) for i, t in enumerate(p["given"]))
         lhs = ["v"] + (["cleanup"] if p["cleanup"] else []) + (["err"] if p["err"] else [])
@@ -476,7 +561,7 @@ def run_batch(progs, workdir, tag="b", want_run=True):
     for attempt in range(4):
         p = sh([tools["wire"], "gen", "./..."], cwd=root, env=env, timeout=900)
         per, loose = classify_stderr(p.stderr)
-        if p.returncode == 0 or per or "wrote" in p.stderr or "panic:" in p.stderr:
+        if p.returncode == 0 or per or "wrote" in p.stderr or "panic:" in p.stderr or "goroutine " in p.stderr:
             break
         # the loader refused the whole invocation: some rendered package is not valid Go (harness defect,
         # not Wire's); drop the packages named in the errors and try again
@@ -486,19 +571,36 @@ def run_batch(progs, workdir, tag="b", want_run=True):
         for i in bad:
             dropped[i] = "\n".join(l for l in p.stderr.split("\n") if ("/c%d/" % i) in l)[:600]
             shutil.rmtree(os.path.join(root, "c%d" % i), ignore_errors=True)
+    crashed = {}
+    if "goroutine " in p.stderr and ("panic:" in p.stderr or "fatal error:" in p.stderr):
+        # the tool crashed on the whole pattern: run every package on its own to find out which ones do it
+        from concurrent.futures import ThreadPoolExecutor
+
+        def one(i):
+            try:
+                q = sh([tools["wire"], "gen", "./c%d/app" % i], cwd=root, env=env, timeout=60)
+                return i, q.returncode, q.stderr
+            except subprocess.TimeoutExpired:
+                return i, 124, "timeout: wire gen did not finish within 60s"
+        per = {}
+        with ThreadPoolExecutor(max_workers=16) as ex:
+            for i, rc, err in ex.map(one, [i for i in range(len(renders)) if i not in dropped]):
+                if "goroutine " in err or rc == 124 or rc == 2:
+                    crashed[i] = err[:1500]
+                pp, _ = classify_stderr(err)
+                per.update(pp)
     obs = []
     gens = []
     for i, r in enumerate(renders):
         gen = os.path.join(root, "c%d" % i, "app", "wire_gen.go")
         o = {"exit": p.returncode, "errors": per.get(r.apppath, []), "generated": os.path.exists(gen), "gen_path": gen}
+        if i in crashed:
+            o["crash"] = crashed[i]
         if i in dropped:
             o["invalid_go"] = dropped[i]
         obs.append(o)
         if o["generated"]:
             gens.append(gen)
-    if "panic:" in p.stderr or p.returncode == 2:
-        for o in obs:
-            o["crash"] = p.stderr[-2000:]
     # read back
     rb = os.path.join(WORK, "bin", "readback")
     if "readback" not in tools:
